@@ -8,6 +8,7 @@ from typing import NoReturn, List, Tuple
 
 PLAN_COMPONENT_REGEX = r"\d: ([\w+ \t?-]+)\r?$"
 VALID_PLAN_FOUND_PATTERN = "ff: found legal plan as follows"
+EMPTY_PLAN_FOUND_PATTERN = "ff: goal can be simplified to TRUE. The empty plan solves it"
 NO_SOLUTION_OPTIONS = [
     "problem proven unsolvable.",
     "ff: goal can be simplified to FALSE. No plan will solve it",
@@ -83,6 +84,10 @@ class MetricFFParser:
         if plan_found is not None:
             action_sequence = self._parse_plan_content(file_content)
             return "ok", action_sequence
+
+        if EMPTY_PLAN_FOUND_PATTERN in file_content:
+            # the goal already holds in the initial state - the planner reports a plan without steps.
+            return "ok", []
 
         for option in NO_SOLUTION_OPTIONS:
             no_solution_match = re.search(option, file_content, re.MULTILINE)
